@@ -601,18 +601,42 @@ Proof. destruct q as [qx qy], o as [ox oy]. unfold padd, psub. cbn [px py]. f_eq
 Lemma psub_padd p o : psub (padd p o) o = p.
 Proof. destruct p as [qx qy], o as [ox oy]. unfold padd, psub. cbn [px py]. f_equal; lia. Qed.
 
+(* A box of size s placed at o fits the i32 coordinate space: the exact condition under which
+   `Rectangle::points()` (rows/columns with `saturating_add` and a saturating u32 -> i32 cast,
+   core/src/primitives/rectangle/{mod,points}.rs) does not saturate, i.e. the unbounded model equals the code. *)
+Definition offset_fits (o : point) (s : size) : Prop :=
+  0 <= sw s <= i32_max /\ 0 <= sh s <= i32_max /\
+  i32_min <= px o /\ px o + sw s <= i32_max /\ i32_min <= py o /\ py o + sh s <= i32_max.
+
+Lemma point_ok_offset_fits o s : point_ok o -> size_ok s -> offset_fits o s.
+Proof. unfold point_ok, size_ok, offset_fits, bound, i32_max, i32_min. lia. Qed.
+
+Lemma points_row_major_fits r :
+  offset_fits (tl r) (sz r) ->
+  points r = if is_zero_sized r then []
+             else row_major (px (tl r)) (px (tl r) + sw (sz r)) (py (tl r)) (py (tl r) + sh (sz r)).
+Proof.
+  intros H. unfold offset_fits, i32_max, i32_min in H. unfold points. destruct (is_zero_sized r); [reflexivity|].
+  unfold columns, rows, sat_add_i32, sat_u32_to_i32, i32_max, i32_min, row_major.
+  replace (Z.max (-2147483648) (Z.min (px (tl r) + Z.min (sw (sz r)) 2147483647) 2147483647))
+    with (px (tl r) + sw (sz r)) by lia.
+  replace (Z.max (-2147483648) (Z.min (py (tl r) + Z.min (sh (sz r)) 2147483647) 2147483647))
+    with (py (tl r) + sh (sz r)) by lia.
+  reflexivity.
+Qed.
+
 (* one fill_contiguous call over the box (o, w x h) whose colours are f over the row-major grid *)
 Lemma render_grid bb o w h (f : point -> option Z) cs q :
-  point_ok o -> size_ok (S w h) ->
+  offset_fits o (S w h) ->
   map Some cs = map f (row_major 0 w 0 h) ->
   render bb [FillContiguous (R o (S w h)) cs] q =
   if contains bb q && contains (R o (S w h)) q then f (psub q o) else None.
 Proof.
-  intros Ho Hs Hm. unfold render, writes. cbn [flat_map call_writes]. rewrite app_nil_r.
+  intros Hfit Hm. unfold render, writes. cbn [flat_map call_writes]. rewrite app_nil_r.
   rewrite (last_write_filter (contains bb)).
   destruct (contains bb q); cbn [andb]; [|reflexivity].
   assert (Hpts : points (R o (S w h)) = map (fun p => padd p o) (row_major 0 w 0 h)).
-  { rewrite points_row_major by (split; assumption). cbn [tl sz sw sh].
+  { rewrite points_row_major_fits by exact Hfit. cbn [tl sz sw sh].
     destruct (is_zero_sized (R o (S w h))) eqn:Ez.
     - unfold is_zero_sized in Ez. cbn [sz sw sh] in Ez. rewrite row_major_empty by lia. reflexivity.
     - destruct o as [ox oy]. cbn [px py]. apply row_major_shift. }
@@ -657,8 +681,8 @@ Proof. destruct o as [ox oy]. reflexivity. Qed.
 
 (* image_draw_spec: drawing Image(d, o) sets q to pixel(q - o) for q - o in the drawable's box (and inside
    the target), and touches nothing else *)
-Theorem image_draw_spec d o bb q :
-  d_wf d -> point_ok o ->
+Theorem image_draw_spec_fits d o bb q :
+  d_wf d -> is_zero_sized (d_box d) = true \/ offset_fits o (d_size d) ->
   render bb (image_draw (Img d o)) q =
   if contains bb q && contains (image_box (Img d o)) q then d_pixel d (psub q o) else None.
 Proof.
@@ -673,11 +697,21 @@ Proof.
     cbn [map translated_call]. unfold render, writes. cbn [flat_map call_writes].
     unfold points. replace (is_zero_sized (translate_rect (d_box d) o)) with true by (symmetry; exact Ez).
     reflexivity.
-  - pose proof (d_size_ok d H Ez) as Hs.
+  - destruct Ho as [Ho|Ho]; [congruence|].
     destruct (d_draw_spec d H) as [(cs & -> & Hm)|(_ & Hz)]; [|congruence].
     cbn [map translated_call]. unfold d_box, origin_box, translate_rect. cbn [tl sz]. rewrite padd_zero_l.
     destruct (d_size d) as [w h] eqn:Es. cbn [sw sh] in Hm.
     apply render_grid; assumption.
+Qed.
+
+Theorem image_draw_spec d o bb q :
+  d_wf d -> point_ok o ->
+  render bb (image_draw (Img d o)) q =
+  if contains bb q && contains (image_box (Img d o)) q then d_pixel d (psub q o) else None.
+Proof.
+  intros H Ho. apply image_draw_spec_fits; [assumption|].
+  destruct (is_zero_sized (d_box d)) eqn:Ez; [left; reflexivity|right].
+  apply point_ok_offset_fits; [assumption|apply d_size_ok; assumption].
 Qed.
 
 (* ---- SubImage::new --------------------------------------------------------------- *)
@@ -969,4 +1003,212 @@ Proof.
       apply origin_box_contains. unfold padd. cbn [px py]. lia. }
     destruct (IH (padd p (tl a)) Hp) as (E1 & E2). rewrite E1, Hc, padd_assoc. split; [reflexivity|].
     intros _. rewrite <- padd_assoc. apply E2. exact Hc.
+Qed.
+
+(* ==== ranges in which the unbounded model equals the i32 / u32 code ============================== *)
+
+(* An area handed to `sub_image` / `SubImage::new`: coordinates are i32, extents u32 (by type), and unless the
+   area is zero sized its bottom right corner `top_left + size - (1,1)` is computable in i32
+   (core/src/primitives/rectangle/mod.rs:137 through point.rs:275-282: `size.width as i32` must not be negative,
+   the i32 addition must not overflow).  This is the exact condition under which `Rectangle::intersection`
+   with the parent's box evaluates without panic / wrap-around; a zero sized area is only compared, never added.
+   Outside it (e.g. width 2^31) the code panics with debug assertions (point.rs:279) and the model says nothing. *)
+Definition area_fits (a : rect) : Prop :=
+  i32_min <= px (tl a) <= i32_max /\ i32_min <= py (tl a) <= i32_max /\
+  0 <= sw (sz a) <= u32_max /\ 0 <= sh (sz a) <= u32_max /\
+  (is_zero_sized a = true \/
+   (sw (sz a) <= i32_max /\ sh (sz a) <= i32_max /\
+    px (tl a) + sw (sz a) <= i32_max /\ py (tl a) + sh (sz a) <= i32_max)).
+
+Lemma rect_ok_area_fits a : rect_ok a -> area_fits a.
+Proof.
+  unfold rect_ok, point_ok, size_ok, area_fits, bound, i32_max, i32_min, u32_max.
+  intros H. repeat split; try lia. all: right; lia.
+Qed.
+
+Lemma area_fits_nonneg a : area_fits a -> size_nonneg a.
+Proof. unfold area_fits, size_nonneg. lia. Qed.
+
+Theorem sub_image_wf_fits d area : d_wf d -> area_fits area -> d_wf (sub_image d area).
+Proof. intros H Ha. apply sub_image_wf; [assumption|apply area_fits_nonneg; assumption]. Qed.
+
+Theorem sub_image_spec_fits d area o bb q :
+  d_wf d -> area_fits area ->
+  let a' := intersection (d_box d) area in
+  is_zero_sized a' = true \/ offset_fits o (sz a') ->
+  d_wf (sub_image d area) /\
+  d_size (sub_image d area) = sz a' /\
+  (forall x, contains a' x = contains (d_box d) x && contains area x) /\
+  render bb (image_draw (Img (sub_image d area) o)) q =
+    (let x := padd (psub q o) (tl a') in
+     if contains bb q && contains a' x then d_pixel d x else None).
+Proof.
+  intros H Ha a' Ho. pose proof (sub_image_wf_fits d area H Ha) as Hwf.
+  split; [exact Hwf|]. split; [reflexivity|]. split; [intros x; apply intersection_spec|].
+  rewrite image_draw_spec_fits by (try assumption; exact Ho). rewrite image_box_eq, padd_zero_l.
+  unfold sub_image. fold a'. cbn [d_size d_pixel]. cbv zeta.
+  assert (E1 : contains (R o (sz a')) q = contains (origin_box (sz a')) (psub q o)).
+  { apply eq_true_iff_eq. rewrite contains_spec, origin_box_contains. unfold psub. cbn [tl sz px py]. lia. }
+  assert (E2 : contains a' (padd (psub q o) (tl a')) = contains (origin_box (sz a')) (psub q o)).
+  { apply eq_true_iff_eq. rewrite contains_spec, origin_box_contains. unfold psub, padd. cbn [tl sz px py]. lia. }
+  rewrite E1, E2. destruct (contains bb q); cbn [andb]; [|reflexivity].
+  destruct (contains (origin_box (sz a')) (psub q o)); reflexivity.
+Qed.
+
+Theorem sub_sub_compose_fits d a1 a2 :
+  d_wf d -> area_fits a1 -> area_fits a2 ->
+  let s1 := sub_image d a1 in
+  let a1' := intersection (d_box d) a1 in
+  let a2' := intersection (d_box s1) a2 in
+  let a12 := translate_rect a2' (tl a1') in
+  d_draw (sub_image s1 a2) = d_draw (sub_image d a12) /\
+  (forall p, d_pixel (sub_image s1 a2) p = d_pixel (sub_image d a12) p) /\
+  (is_zero_sized a2' = true ->
+     is_zero_sized (d_box (sub_image s1 a2)) = true /\ is_zero_sized (d_box (sub_image d a12)) = true) /\
+  (is_zero_sized a2' = false ->
+     area_fits a12 /\
+     d_size (sub_image s1 a2) = d_size (sub_image d a12) /\
+     forall x, contains a12 x =
+               contains (d_box d) x && contains a1 x && contains (translate_rect a2 (tl a1')) x).
+Proof.
+  intros H Ha1 Ha2 s1 a1' a2' a12.
+  destruct (sub_sub_compose d a1 a2 H (area_fits_nonneg _ Ha1) (area_fits_nonneg _ Ha2)) as (E1 & E2 & E3 & E4).
+  split; [exact E1|]. split; [exact E2|]. split; [exact E3|]. intros Hnz.
+  destruct (E4 Hnz) as (E5 & E6). split; [|split; [exact E5|exact E6]].
+  (* a12 is not empty and lies inside d's box, whose extents are <= 2^29 *)
+  pose proof (sub_image_wf d a1 H (area_fits_nonneg _ Ha1)) as Hwf1. fold s1 in Hwf1.
+  pose proof (sub_image_wf s1 a2 Hwf1 (area_fits_nonneg _ Ha2)) as Hwf12.
+  assert (Hsub2 : sub_wf (d_size s1) a2') by (apply Hwf12).
+  assert (Hsub1 : sub_wf (d_size d) a1') by (apply Hwf1).
+  destruct Hsub2 as (_ & [Hz2|Hin2]); [unfold a2' in Hnz; fold a2' in Hnz; congruence|].
+  destruct Hsub1 as (_ & [Hz1|Hin1]).
+  { exfalso. destruct Hin2 as (Hw & Hh & Hx & Hy & Hxw & Hyh). unfold s1, sub_image in Hxw, Hyh.
+    fold a1' in Hxw, Hyh. cbn [d_size] in Hxw, Hyh. unfold is_zero_sized in Hz1. lia. }
+  assert (Hs : size_ok (d_size d)).
+  { apply d_size_ok; [assumption|]. destruct Hin1 as (Hw & Hh & Hx & Hy & Hxw & Hyh).
+    unfold is_zero_sized, d_box, origin_box. cbn [sz]. lia. }
+  destruct Hin2 as (Hw & Hh & Hx & Hy & Hxw & Hyh). destruct Hin1 as (Hw1 & Hh1 & Hx1 & Hy1 & Hxw1 & Hyh1).
+  unfold s1, sub_image in Hxw, Hyh. fold a1' in Hxw, Hyh. cbn [d_size] in Hxw, Hyh.
+  unfold area_fits, a12, translate_rect, padd, size_ok, bound, i32_max, i32_min, u32_max in *.
+  cbn [tl sz px py]. repeat split; try lia. all: right; lia.
+Qed.
+
+(* ---- Image::with_center: `center - center_offset(size)` (Point::sub_size: i32 subtraction) ---------- *)
+Definition with_center_fits (c : point) (s : size) : Prop :=
+  i32_min <= px c <= i32_max /\ i32_min <= py c <= i32_max /\
+  i32_min <= px c - Z.max (sw s - 1) 0 / 2 /\ i32_min <= py c - Z.max (sh s - 1) 0 / 2.
+
+Lemma point_ok_with_center_fits c s :
+  point_ok c -> size_ok s -> with_center_fits c s /\ offset_fits (tl (with_center c s)) s.
+Proof.
+  destruct c as [cx cy], s as [w h].
+  unfold point_ok, size_ok, with_center_fits, offset_fits, with_center, psub_size, center_offset, size_sat_sub,
+    sat_sub_u32, bound, i32_max, i32_min. cbn [tl sz px py sw sh]. intros Hc Hs. lia.
+Qed.
+
+(* the pixel map of Image::with_center(d, c): d's pixels, placed so that the image's centre pixel
+   ((w-1)/2, (h-1)/2) lands on c *)
+Theorem with_center_draw_spec d c bb q :
+  d_wf d ->
+  is_zero_sized (d_box d) = true \/
+    (with_center_fits c (d_size d) /\ offset_fits (tl (with_center c (d_size d))) (d_size d)) ->
+  let o := tl (with_center c (d_size d)) in
+  let m := P (Z.max (sw (d_size d) - 1) 0 / 2) (Z.max (sh (d_size d) - 1) 0 / 2) in
+  o = psub c m /\
+  render bb (image_draw (image_with_center d c)) q =
+    (if contains bb q && contains (with_center c (d_size d)) q then d_pixel d (padd (psub q c) m) else None) /\
+  (is_zero_sized (d_box d) = false -> contains bb c = true ->
+     render bb (image_draw (image_with_center d c)) c = d_pixel d m /\ d_pixel d m <> None).
+Proof.
+  intros H Hfit o m.
+  assert (Eo : o = psub c m).
+  { unfold o, m, with_center, psub_size, center_offset, size_sat_sub, sat_sub_u32, psub. cbn [tl px py sw sh].
+    reflexivity. }
+  assert (Hr : forall q', render bb (image_draw (image_with_center d c)) q' =
+     (if contains bb q' && contains (with_center c (d_size d)) q' then d_pixel d (padd (psub q' c) m) else None)).
+  { intros q'. unfold image_with_center. fold o. rewrite image_draw_spec_fits; [|assumption|tauto].
+    rewrite image_box_eq, padd_zero_l.
+    replace (R o (d_size d)) with (with_center c (d_size d)) by reflexivity.
+    replace (psub q' o) with (padd (psub q' c) m); [reflexivity|].
+    rewrite Eo. unfold psub, padd. cbn [px py]. f_equal; lia. }
+  split; [exact Eo|]. split; [apply Hr|].
+  intros Hnz Hbc. rewrite Hr, Hbc. cbn [andb].
+  pose proof (d_size_nonneg d H) as (Hw & Hh).
+  unfold is_zero_sized, d_box, origin_box in Hnz. cbn [sz] in Hnz.
+  assert (Hc : contains (with_center c (d_size d)) c = true).
+  { apply contains_spec. unfold with_center, psub_size, center_offset, size_sat_sub, sat_sub_u32.
+    cbn [tl sz px py sw sh]. lia. }
+  rewrite Hc. replace (padd (psub c c) m) with m by (unfold psub, padd, m; cbn [px py]; f_equal; lia).
+  split; [reflexivity|]. intros Hn. apply (d_pixel_none_iff d m H) in Hn.
+  assert (contains (d_box d) m = true); [|congruence].
+  apply origin_box_contains. unfold m. cbn [px py]. lia.
+Qed.
+
+(* ---- ImageDrawable::draw_sub_image called directly on an ImageRaw ---------------------------------- *)
+(* image_raw.rs:226-231: the two sums `x as u32 + width`, `y as u32 + height` are u32 additions evaluated left
+   to right inside an `||` chain; they are computed only when the earlier tests are false.  This is the exact
+   condition under which they do not overflow (debug: panic at image_raw.rs:229/230; release: wrap-around, the
+   area passes the test and the row skip underflows) - e.g. area (1,0) 4294967295 x 1 violates it. *)
+Definition direct_area_fits (img : image_raw) (a : rect) : Prop :=
+  i32_min <= px (tl a) <= i32_max /\ i32_min <= py (tl a) <= i32_max /\
+  0 <= sw (sz a) <= u32_max /\ 0 <= sh (sz a) <= u32_max /\
+  (is_zero_sized a = true \/ px (tl a) < 0 \/ py (tl a) < 0 \/
+   (px (tl a) + sw (sz a) <= u32_max /\
+    (px (tl a) + sw (sz a) > sw (ir_size img) \/ py (tl a) + sh (sz a) <= u32_max))).
+
+Theorem draw_sub_image_direct img a :
+  img_ok img -> direct_area_fits img a ->
+  (inside (ir_size img) a ->
+     raw_draw_sub_image img a =
+     [FillContiguous (origin_box (sz a)) (area_stream img (px (tl a)) (py (tl a)) (sw (sz a)) (sh (sz a)))]) /\
+  (~ inside (ir_size img) a -> raw_draw_sub_image img a = []).
+Proof.
+  intros H Hf. split.
+  - apply raw_draw_sub_image_inside; assumption.
+  - intros Hn. unfold raw_draw_sub_image. destruct (_ || _) eqn:E; [reflexivity|].
+    exfalso. apply Hn. unfold direct_area_fits, inside, is_zero_sized in *. lia.
+Qed.
+
+(* areas that sub_image produces always satisfy it *)
+Lemma inside_direct_area_fits img a : img_ok img -> inside (ir_size img) a -> direct_area_fits img a.
+Proof.
+  intros (_ & Hs & _) (Hw & Hh & Hx & Hy & Hxw & Hyh).
+  unfold direct_area_fits, size_ok, bound, i32_max, i32_min, u32_max in *. repeat split; try lia.
+  all: right; right; right; lia.
+Qed.
+
+Theorem with_center_spec_fits d c :
+  0 <= sw (d_size d) -> 0 <= sh (d_size d) -> with_center_fits c (d_size d) ->
+  let i := image_with_center d c in
+  image_box i = with_center c (d_size d) /\
+  sz (image_box i) = d_size d /\
+  i = image_new d (psub_size c (S (Z.max (sw (d_size d) - 1) 0 / 2) (Z.max (sh (d_size d) - 1) 0 / 2))) /\
+  center (image_box i) = c /\
+  (forall br, bottom_right (image_box i) = Some br ->
+     0 <= px (tl (image_box i)) + px br - 2 * px c <= 1 /\
+     0 <= py (tl (image_box i)) + py br - 2 * py c <= 1).
+Proof. intros Hw Hh _. apply with_center_spec; assumption. Qed.
+
+(* ---- ImageRaw::new_const ---------------------------------------------------------------------------- *)
+Theorem new_const_spec bpp alt data s :
+  (Z.of_nat (length data) = bytes_per_row (sw s) bpp * sh s ->
+     raw_new_const bpp alt data s = Some (IR data s bpp alt) /\ raw_new bpp alt data s = inl (IR data s bpp alt)) /\
+  (Z.of_nat (length data) <> bytes_per_row (sw s) bpp * sh s ->
+     raw_new_const bpp alt data s = None /\ raw_new bpp alt data s = inr (bytes_per_row (sw s) bpp * sh s)).
+Proof.
+  unfold raw_new_const, raw_new. destruct (Z.of_nat (length data) =? _) eqn:E; cbn [negb]; split; intros H;
+    try (exfalso; lia); split; reflexivity.
+Qed.
+
+(* ---- ImageDrawable::draw_sub_image called directly on a SubImage ------------------------------------ *)
+(* sub_image.rs:60-67 only re-bases; the bounds tests are those of the ROOT image (image_raw.rs:226-231).  So a
+   direct call with an area outside the SubImage's own box, but inside the root, draws root pixels the SubImage
+   does not show.  (Not reachable through `sub_image()`, which clips first; the trait documents the method as
+   not for user code.) *)
+Theorem d_draw_sub_image_root d : forall a,
+  d_draw_sub_image d a = raw_draw_sub_image (d_root d) (translate_rect a (d_origin d)).
+Proof.
+  induction d as [img|parent IH a0]; intros a; cbn [d_draw_sub_image d_root d_origin].
+  - unfold translate_rect. rewrite padd_zero_r. destruct a as [t s]. reflexivity.
+  - rewrite IH. f_equal. unfold translate_rect. cbn [tl sz]. rewrite padd_assoc. reflexivity.
 Qed.
